@@ -71,12 +71,15 @@ def _source_of(graph: str, m: str, v: int) -> str:
 			return 'from vm.d import make\n\nvb = make()\n' if v == 1 else 'from vm.d import make\n\nvb = [make()]\n'
 		if m == 'c':
 			return 'from vm.d import make\n\nvc = make()\n' if v == 1 else 'from vm.d import make\n\nvc = [make()]\n'
-		return 'from vm.b import vb\nfrom vm.c import vc\n\nx = vb\ny = vc\n' if v == 1 else 'from vm.b import vb\nfrom vm.c import vc\n\nx = vb\ny = vc\nz = 0\n'
+		# (vm.b is imported by two statements, the second one before the import of vm.c: every import statement counts for
+		# what the module depends on, also those behind a repeated one)
+		head = 'from vm.b import vb\nfrom vm.b import vb as vb0\nfrom vm.c import vc\n\nx = vb\ny = vc\n'
+		return head if v == 1 else head + 'z = 0\n'
 	if graph == 'Twins':
 		# the two leaves are written from ONE family of contents: what vm.b holds in one generation vm.c may hold in another
 		if m in ('b', 'c'):
 			return LEAF[v]
-		return 'from vm.b import make as mb\nfrom vm.c import make as mc\n\nx = mb()\ny = mc()\n' + ('' if v == 1 else 'z = 0\n')
+		return 'from vm.b import make as mb\nfrom vm.b import make as mb0\nfrom vm.c import make as mc\n\nx = mb()\ny = mc()\n' + ('' if v == 1 else 'z = 0\n')
 	raise ValueError(graph)
 
 
